@@ -1,6 +1,7 @@
 package types
 
 import (
+	"fmt"
 	"math/big"
 	"strconv"
 )
@@ -24,24 +25,34 @@ func ConvertUndDenomination(amount string, from string, to string) (string, erro
 
 	switch from {
 	case FundDenom: // from und to nund
-		fromAmt, err := strconv.ParseFloat(amount, 64)
+		fromAmt, err := parseExactAmount(amount)
 		if err != nil {
 			return "", err
 		}
-		fromAmtBf := new(big.Float).SetFloat64(fromAmt)
-		res := fromAmtBf.Mul(fromAmtBf, big.NewFloat(UndPow))
-		result := new(big.Int)
-		res.Int(result)
+		res := fromAmt.Mul(fromAmt, big.NewRat(UndPow, 1))
+		result := new(big.Int).Quo(res.Num(), res.Denom())
 		return result.String() + to, nil
 	case NundDenom: // from nund to fund
-		fromAmt, err := strconv.ParseFloat(amount, 64)
+		fromAmt, err := parseExactAmount(amount)
 		if err != nil {
 			return "", err
 		}
-		fromAmtBf := new(big.Float).SetFloat64(fromAmt)
-		res := fromAmtBf.Mul(fromAmtBf, big.NewFloat(NundPow))
-		return res.Text('f', 9) + to, nil
+		res := fromAmt.Quo(fromAmt, big.NewRat(UndPow, 1))
+		return res.FloatString(9) + to, nil
 	}
-
 	return "", nil
+}
+
+// parseExactAmount accepts what strconv.ParseFloat accepts, but keeps the value
+// exact: binary floating point cannot represent amounts such as 2.0542 or
+// 120000000.123456789, so the conversion was off by one nund and more.
+func parseExactAmount(amount string) (*big.Rat, error) {
+	if _, err := strconv.ParseFloat(amount, 64); err != nil {
+		return nil, err
+	}
+	r, ok := new(big.Rat).SetString(amount)
+	if !ok {
+		return nil, fmt.Errorf("invalid amount: %s", amount)
+	}
+	return r, nil
 }
